@@ -148,6 +148,7 @@ func TestC01_Kernel(t *testing.T) {
 		exps = append(exps, 12287+d) // above the maximum: spare-digit compensation, overflow
 	}
 	n := 0
+	allExps := exps
 	run := func(sig *big.Int, withSticky bool) {
 		words := (sig.BitLen() + 63) / 64
 		for w := max(words, 2); w <= 4; w++ {
@@ -195,6 +196,20 @@ func TestC01_Kernel(t *testing.T) {
 	for _, s := range small {
 		run(s, false)
 	}
+	// top band: a short significand whose exponent excess is moved into the coefficient and lands next to the
+	// largest coefficient (first k digits of Cmax, +-1), at the one exponent where that happens and its neighbours
+	for k := 1; k <= 35; k++ {
+		lead := new(big.Int).Quo(cm, p(35-k))
+		for _, off := range []int64{-1, 0, 1} {
+			v := new(big.Int).Add(lead, big.NewInt(off))
+			if v.Sign() <= 0 {
+				continue
+			}
+			exps = []int{12287 + 35 - k - 1, 12287 + 35 - k, 12287 + 35 - k + 1}
+			run(v, false)
+		}
+	}
+	exps = allExps
 	st.Eval(n)
 	st.SetExhaustive()
 	st.Note("enumerated", "reduce64/128/192/256 x 6 modes x sign x sticky x significand shapes x exponent classes")
